@@ -58,7 +58,7 @@ func checkC01(c *Check) {
 	checkC09(sub)
 	for _, o := range sub.obs {
 		switch o.Rule {
-		case "K1", "K1f", "K2", "K3b", "K3c", "K3d":
+		case "K1", "K1f", "K2", "K3b", "K3c", "K3d", "K6":
 		default:
 			continue
 		}
